@@ -297,10 +297,10 @@ theorem mem_scan_snaps (t : Tree) (e : Nat) :
     exact ⟨.snp e, (mem_children_root t _).2 h.1, by simp [snapOf, h.2]⟩
 
 /-- a root name is on the delete list -/
-def delName (fixed : Bool) (t : Tree) (n : Name) : Prop := exists_ t [n] = true ∧ toDelete fixed t n = true
+def delName (fixed : Bool) (t : Tree) (n : Name) : Bool := exists_ t [n] && toDelete fixed t n
 
 theorem mem_scan_del (fixed : Bool) (t : Tree) (n : Name) :
-    n ∈ (scan fixed t).del ↔ delName fixed t n := by
+    n ∈ (scan fixed t).del ↔ delName fixed t n = true := by
   simp [scan, delName, List.mem_filter, mem_children_root]
 
 /-- the tree after the delete list was processed -/
@@ -318,7 +318,7 @@ theorem get_after_del (fixed : Bool) (t : Tree) (q : Path) :
       simp [List.isPrefixOf]
     simp [this]
   | cons n r =>
-    by_cases hd : delName fixed t n
+    by_cases hd : delName fixed t n = true
     · have : (List.map (fun n => [n]) (scan fixed t).del).any (fun p => p.isPrefixOf (n :: r)) = true := by
         rw [List.any_eq_true]
         exact ⟨[n], List.mem_map.2 ⟨n, (mem_scan_del fixed t n).2 hd, rfl⟩, by simp [List.isPrefixOf]⟩
@@ -330,5 +330,535 @@ theorem get_after_del (fixed : Bool) (t : Tree) (q : Path) :
         simp only [List.isPrefixOf, Bool.and_true, beq_iff_eq]
         intro h; subst h; exact hd hm'
       simp [this, hd]
+
+end Banyan.C04
+
+namespace Banyan.C04
+open Banyan.FS
+
+theorem part_isPrefixOf_pfile (i id : Nat) (n : Name) :
+    ([Name.part i] : Path).isPrefixOf [.part id, n] = decide (i = id) := by
+  by_cases h : i = id <;> simp [List.isPrefixOf, h]
+
+/-- the tree `loadSnapshot` leaves: orphans removed, `.tmp` leftovers of the kept parts cleaned -/
+def afterLoad (t1 : Tree) (ids parts : List Nat) : Tree :=
+  (parts.filter (fun id => ids.contains id)).foldl cleanupTmp
+    (rmMany t1 ((parts.filter (fun id => !ids.contains id)).map (fun id => [Name.part id])))
+
+theorem get_afterLoad_pfile (t1 : Tree) (ids parts : List Nat) (id : Nat) (f : PFile) (hid : id ∈ ids) :
+    Map.get (afterLoad t1 ids parts) (pfile id f) = Map.get t1 (pfile id f) := by
+  unfold afterLoad
+  rw [get_foldl_cleanupTmp_of_not_tmp _ _ _ (by intro i n; simp [pfile])]
+  apply get_rmMany_of_not
+  intro p hp
+  obtain ⟨i, hi, rfl⟩ := List.mem_map.1 hp
+  simp only [List.mem_filter, Bool.not_eq_true', List.contains_eq_mem, decide_eq_false_iff_not] at hi
+  rw [pfile, part_isPrefixOf_pfile]
+  have : i ≠ id := by intro h; subst h; exact hi.2 hid
+  simp [this]
+
+theorem loadSnapshot_ok (t1 : Tree) (live : Nat) (ids parts : List Nat) (bat : Nat → List Nat)
+    (hm : readFile t1 [.snp live] = some (encList ids))
+    (hc : ∀ id ∈ parts, id ∈ ids → ∀ f, readFile t1 (pfile id f) = some (fileContent f (bat id))) :
+    loadSnapshot t1 live parts = some (.ok
+      { epoch := if (parts.filter (fun id => ids.contains id)).isEmpty then none else some live,
+        parts := (parts.filter (fun id => ids.contains id)).map (fun id => (id, bat id)),
+        tree := afterLoad t1 ids parts }) := by
+  unfold loadSnapshot
+  simp only [hm, Option.bind_some, decList_encList]
+  have hopen : ∀ id ∈ parts.filter (fun id => ids.contains id),
+      openPart (afterLoad t1 ids parts) id = .ok (bat id) := by
+    intro id hid
+    simp only [List.mem_filter, List.contains_eq_mem, decide_eq_true_eq] at hid
+    apply openPart_complete
+    intro f
+    rw [readFile_congr (get_afterLoad_pfile t1 ids parts id f hid.2)]
+    exact hc id hid.1 hid.2 f
+  have hmap : (parts.filter (fun id => ids.contains id)).map (fun id => (id, openPart (afterLoad t1 ids parts) id))
+      = (parts.filter (fun id => ids.contains id)).map (fun id => (id, Opened.ok (bat id))) := by
+    apply List.map_congr_left
+    intro id hid
+    rw [hopen id hid]
+  unfold afterLoad at hmap hopen ⊢
+  simp only [hmap]
+  split
+  · rename_i id why heq
+    have hmem := List.mem_of_find?_eq_some heq
+    obtain ⟨i, _, hi⟩ := List.mem_map.1 hmem
+    simp at hi
+  · simp [List.filterMap_map, Function.comp_def]
+
+end Banyan.C04
+
+namespace Banyan.C04
+open Banyan.FS
+
+/-- under `TreeOK`, what is on the delete list -/
+theorem delName_treeOK {t : Tree} {live : Nat} {ids : List Nat} {bat : Nat → List Nat}
+    (h : TreeOK t live ids bat) (n : Name) :
+    delName true t n = true ↔
+      (∃ id, n = .part id ∧ isDir t [n] = true ∧ validMeta t id = false) ∨
+      (∃ e, n = .tmp (.snp e) ∧ exists_ t [n] = true) := by
+  unfold delName
+  constructor
+  · intro hd
+    simp only [Bool.and_eq_true] at hd
+    rcases h.rootShape n hd.1 with ⟨id, rfl, hdir⟩ | ⟨e, rfl, hf⟩ | ⟨e, rfl, hf⟩
+    · left; refine ⟨id, rfl, hdir, ?_⟩
+      have := hd.2; simp [toDelete, hdir] at this; exact this
+    · exfalso
+      have hnd : isDir t [Name.snp e] = false := by
+        obtain ⟨c, hc⟩ := (isFile_iff t _).1 hf
+        simp [isDir, hc]
+      have := hd.2; simp [toDelete, hnd] at this
+    · right; exact ⟨e, rfl, hd.1⟩
+  · rintro (⟨id, rfl, hdir, hv⟩ | ⟨e, rfl, hex⟩)
+    · have hex : exists_ t [Name.part id] = true := (exists_iff t _).2 ⟨_, (isDir_iff t _).1 hdir⟩
+      simp [hex, toDelete, hdir, hv]
+    · rcases h.rootShape _ hex with ⟨id, hh, _⟩ | ⟨e', hh, _⟩ | ⟨e', _, hf⟩
+      · cases hh
+      · cases hh
+      · have hnd : isDir t [Name.tmp (Name.snp e)] = false := by
+          obtain ⟨c, hc⟩ := (isFile_iff t _).1 hf
+          simp [isDir, hc]
+        simp [hex, toDelete, hnd]
+
+/-- removing a list of root names -/
+theorem get_rmNames (t : Tree) (ns : List Name) (n : Name) (r : Path) :
+    Map.get (rmMany t (ns.map (fun x => [x]))) (n :: r) = if n ∈ ns then none else Map.get t (n :: r) := by
+  rw [get_rmMany]
+  by_cases hn : n ∈ ns
+  · have : (List.map (fun x => [x]) ns).any (fun p => p.isPrefixOf (n :: r)) = true := by
+      rw [List.any_eq_true]
+      exact ⟨[n], List.mem_map.2 ⟨n, hn, rfl⟩, by simp [List.isPrefixOf]⟩
+    simp [this, hn]
+  · have : (List.map (fun x => [x]) ns).any (fun p => p.isPrefixOf (n :: r)) = false := by
+      rw [List.any_eq_false]; intro p hp
+      obtain ⟨m, hm, rfl⟩ := List.mem_map.1 hp
+      simp only [List.isPrefixOf, Bool.and_true, beq_iff_eq]
+      intro hh; subst hh; exact hn hm
+    simp [this, hn]
+
+end Banyan.C04
+
+namespace Banyan.C04
+open Banyan.FS
+
+theorem recover_treeOK {t : Tree} {live : Nat} {ids : List Nat} {bat : Nat → List Nat}
+    (h : TreeOK t live ids bat) :
+    ∃ r, recover t = .ok r ∧
+      r.parts = (served t ids).map (fun id => (id, bat id)) ∧
+      r.epoch = (if (served t ids).isEmpty then none else some live) ∧
+      PartsComplete r ∧ NoLeftovers (some live) r := by
+  -- the newest manifest
+  have hlive : Map.get t [.snp live] = some (.file (encList ids)) := (readFile_some_iff t _ _).1 h.manifest
+  have hliveEx : exists_ t [.snp live] = true := (exists_iff t _).2 ⟨_, hlive⟩
+  have hliveNotDir : isDir t [.snp live] = false := by simp [isDir, hlive]
+  have hne : (children t []).isEmpty = false := by
+    have : Name.snp live ∈ children t [] := (mem_children_root t _).2 hliveEx
+    cases hc : children t [] with
+    | nil => rw [hc] at this; simp at this
+    | cons a l => rfl
+  -- names
+  obtain ⟨S, hS⟩ : ∃ S, S = scan true t := ⟨_, rfl⟩
+  obtain ⟨t1, ht1⟩ : ∃ t1, t1 = rmMany t (S.del.map (fun n => [n])) := ⟨_, rfl⟩
+  have hget1 : ∀ n r, Map.get t1 (n :: r) = if delName true t n then none else Map.get t (n :: r) := by
+    intro n r; rw [ht1, hS, get_after_del]
+  have hSparts : S.parts = (children t []).filterMap (partOf t) := by rw [hS]; rfl
+  have hSsnaps : S.snaps = (children t []).filterMap (snapOf t) := by rw [hS]; rfl
+  have hliveSnap : live ∈ S.snaps := by rw [hSsnaps, mem_scan_snaps]; exact ⟨hliveEx, hliveNotDir⟩
+  have hsnapLe : ∀ e ∈ S.snaps, e ≤ live := by
+    intro e he; rw [hSsnaps, mem_scan_snaps] at he; exact h.newest e he.1
+  have hmemP : ∀ id, id ∈ sortAsc S.parts ↔ isDir t [.part id] = true ∧ validMeta t id = true := by
+    intro id; rw [mem_sortAsc, hSparts, mem_scan_parts]
+  -- valid parts and manifests are not on the delete list
+  have hpartKeep : ∀ id, validMeta t id = true → delName true t (.part id) = false := by
+    intro id hv
+    cases hd : delName true t (.part id) with
+    | false => rfl
+    | true =>
+      rcases (delName_treeOK h _).1 hd with ⟨i, hi, _, hvi⟩ | ⟨e, he, _⟩
+      · cases hi; rw [hv] at hvi; cases hvi
+      · cases he
+  have hsnpKeep : ∀ e, delName true t (.snp e) = false := by
+    intro e
+    cases hd : delName true t (.snp e) with
+    | false => rfl
+    | true =>
+      rcases (delName_treeOK h _).1 hd with ⟨i, hi, _, _⟩ | ⟨e', he, _⟩
+      · cases hi
+      · cases he
+  -- a surviving root entry that is not deleted is a valid part or a manifest
+  have hrootClass : ∀ n, exists_ t [n] = true → delName true t n = false →
+      (∃ id, n = .part id ∧ id ∈ sortAsc S.parts) ∨ (∃ e, n = .snp e ∧ e ∈ S.snaps) := by
+    intro n hex hnd
+    rcases h.rootShape n hex with ⟨id, rfl, hdir⟩ | ⟨e, rfl, hf⟩ | ⟨e, rfl, hf⟩
+    · left; refine ⟨id, rfl, (hmemP id).2 ⟨hdir, ?_⟩⟩
+      cases hv : validMeta t id with
+      | true => rfl
+      | false =>
+        have := (delName_treeOK h (.part id)).2 (Or.inl ⟨id, rfl, hdir, hv⟩)
+        rw [hnd] at this; cases this
+    · right; refine ⟨e, rfl, ?_⟩
+      rw [hSsnaps, mem_scan_snaps]
+      obtain ⟨c, hc⟩ := (isFile_iff t _).1 hf
+      exact ⟨hex, by simp [isDir, hc]⟩
+    · exfalso
+      have := (delName_treeOK h (.tmp (.snp e))).2 (Or.inr ⟨e, rfl, hex⟩)
+      rw [hnd] at this; cases this
+  unfold recover recoverWith
+  rw [if_neg (by simp [hne])]
+  simp only []
+  rw [← hS, ← ht1]
+  by_cases hP : (sortAsc S.parts).isEmpty = true ∨ S.snaps.isEmpty = true
+  · -- no valid part directory: everything is removed
+    rw [if_pos hP]
+    have hPe : sortAsc S.parts = [] := by
+      rcases hP with hP | hP
+      · exact List.isEmpty_iff.1 hP
+      · exfalso; rw [List.isEmpty_iff.1 hP] at hliveSnap; simp at hliveSnap
+    have hserved : served t ids = [] := by
+      unfold served; rw [← hSparts, hPe]; rfl
+    have hfinal : ∀ n r, Map.get (rmMany t1 (S.snaps.map (fun e => [Name.snp e]) ++
+          (sortAsc S.parts).map (fun id => [Name.part id]))) (n :: r) =
+        if n ∈ S.snaps.map Name.snp ++ (sortAsc S.parts).map Name.part then none else Map.get t1 (n :: r) := by
+      intro n r
+      have : S.snaps.map (fun e => [Name.snp e]) ++ (sortAsc S.parts).map (fun id => [Name.part id]) =
+          (S.snaps.map Name.snp ++ (sortAsc S.parts).map Name.part).map (fun x => [x]) := by
+        simp [List.map_append, List.map_map, Function.comp_def]
+      rw [this, get_rmNames]
+    have hrootNone : ∀ n, exists_ (rmMany t1 (S.snaps.map (fun e => [Name.snp e]) ++
+          (sortAsc S.parts).map (fun id => [Name.part id]))) [n] = false := by
+      intro n
+      cases hex : exists_ (rmMany t1 (S.snaps.map (fun e => [Name.snp e]) ++
+          (sortAsc S.parts).map (fun id => [Name.part id]))) [n] with
+      | false => rfl
+      | true =>
+        exfalso
+        obtain ⟨v, hv⟩ := (exists_iff _ _).1 hex
+        rw [hfinal] at hv
+        by_cases hmem : n ∈ S.snaps.map Name.snp ++ (sortAsc S.parts).map Name.part
+        · simp [hmem] at hv
+        · simp only [hmem, if_false] at hv
+          rw [hget1] at hv
+          cases hd : delName true t n with
+          | true => simp [hd] at hv
+          | false =>
+            simp only [hd] at hv
+            rcases hrootClass n ((exists_iff t _).2 ⟨v, by simpa using hv⟩) hd with ⟨id, rfl, hid⟩ | ⟨e, rfl, he⟩
+            · rw [hPe] at hid; simp at hid
+            · exact hmem (List.mem_append_left _ (List.mem_map.2 ⟨e, he, rfl⟩))
+    refine ⟨_, rfl, ?_, ?_, ?_, ?_⟩
+    · simp [hserved]
+    · simp [hserved]
+    · intro p hp; simp at hp
+    · refine ⟨?_, ?_, ?_⟩
+      · intro q hq
+        obtain ⟨v, hv⟩ := (exists_iff _ _).1 hq
+        rcases get_rmMany_none_or t1 _ q with h1 | h1
+        · rw [h1] at hv; cases hv
+        · rw [h1, ht1] at hv
+          rcases get_rmMany_none_or t _ q with h2 | h2
+          · rw [h2] at hv; cases hv
+          · rw [h2] at hv; exact h.depth q ((exists_iff t _).2 ⟨v, hv⟩)
+      · intro n hn; rw [hrootNone n] at hn; cases hn
+      · intro id n hdir _
+        have := hrootNone (.part id)
+        obtain hd := (isDir_iff _ _).1 hdir
+        rw [(exists_iff _ _).2 ⟨_, hd⟩] at this; cases this
+  · -- the newest manifest loads
+    rw [if_neg hP]
+    have hPne : ¬ ((sortAsc S.parts).isEmpty = true) := fun hh => hP (Or.inl hh)
+    obtain ⟨e0, es, hrev⟩ : ∃ e0 es, (sortAsc S.snaps).reverse = e0 :: es := by
+      cases hr : (sortAsc S.snaps).reverse with
+      | nil =>
+        exfalso
+        have : sortAsc S.snaps = [] := by simpa using congrArg List.reverse hr
+        have hm := (mem_sortAsc live S.snaps).2 hliveSnap
+        rw [this] at hm; simp at hm
+      | cons a l => exact ⟨a, l, rfl⟩
+    have he0 : e0 = live := by
+      obtain ⟨hmem, hmax⟩ := head_reverse_sortAsc_max S.snaps e0 es hrev
+      have := hsnapLe e0 hmem
+      have := hmax live hliveSnap
+      omega
+    subst he0
+    have hm1 : readFile t1 [.snp e0] = some (encList ids) := by
+      rw [readFile_some_iff, hget1, hsnpKeep]; simpa using hlive
+    have hc1 : ∀ id ∈ sortAsc S.parts, id ∈ ids → ∀ f, readFile t1 (pfile id f) = some (fileContent f (bat id)) := by
+      intro id hid hin f
+      obtain ⟨hdir, hv⟩ := (hmemP id).1 hid
+      have : Map.get t1 (pfile id f) = Map.get t (pfile id f) := by
+        rw [pfile, hget1, hpartKeep id hv]; simp
+      rw [readFile_congr this]
+      exact h.complete id hin hdir hv f
+    rw [hrev]
+    simp only [loadFirst, loadSnapshot_ok t1 e0 ids (sortAsc S.parts) bat hm1 hc1, if_true, List.nil_append]
+    -- the final tree
+    obtain ⟨stale, hstale⟩ : ∃ st, st = S.snaps.filter (fun x => decide (x < e0)) := ⟨_, rfl⟩
+    rw [← hstale]
+    have hkeep : (sortAsc S.parts).filter (fun id => ids.contains id) = served t ids := by
+      unfold served; rw [hSparts]
+    obtain ⟨fin, hfin⟩ : ∃ fin, fin = rmMany (afterLoad t1 ids (sortAsc S.parts))
+        (stale.map (fun x => [Name.snp x])) := ⟨_, rfl⟩
+    rw [← hfin]
+    have hfinRoot : ∀ n r, Map.get fin (n :: r) =
+        if n ∈ stale.map Name.snp then none else Map.get (afterLoad t1 ids (sortAsc S.parts)) (n :: r) := by
+      intro n r
+      have : stale.map (fun x => [Name.snp x]) = (stale.map Name.snp).map (fun x => [x]) := by
+        simp [List.map_map, Function.comp_def]
+      rw [hfin, this, get_rmNames]
+    -- every entry of the final tree is an entry of t, with a surviving root name
+    have hsub : ∀ n r v, Map.get fin (n :: r) = some v →
+        Map.get t (n :: r) = some v ∧ n ∉ stale.map Name.snp ∧ delName true t n = false ∧
+        (∀ id, n = .part id → id ∈ ids ∨ id ∉ sortAsc S.parts) := by
+      intro n r v hv
+      rw [hfinRoot] at hv
+      by_cases hst : n ∈ stale.map Name.snp
+      · simp [hst] at hv
+      · simp only [hst, if_false] at hv
+        unfold afterLoad at hv
+        rcases get_foldl_cleanupTmp_none_or ((sortAsc S.parts).filter (fun id => ids.contains id))
+          (rmMany t1 (((sortAsc S.parts).filter (fun id => !ids.contains id)).map (fun id => [Name.part id])))
+          (n :: r) with h1 | h1
+        · rw [h1] at hv; cases hv
+        · rw [h1] at hv
+          have hm : ((sortAsc S.parts).filter (fun id => !ids.contains id)).map (fun id => [Name.part id]) =
+              (((sortAsc S.parts).filter (fun id => !ids.contains id)).map Name.part).map (fun x => [x]) := by
+            simp [List.map_map, Function.comp_def]
+          rw [hm, get_rmNames] at hv
+          by_cases horph : n ∈ ((sortAsc S.parts).filter (fun id => !ids.contains id)).map Name.part
+          · rw [if_pos horph] at hv; cases hv
+          · rw [if_neg horph] at hv
+            rw [hget1] at hv
+            cases hd : delName true t n with
+            | true => simp [hd] at hv
+            | false =>
+              simp only [hd] at hv
+              refine ⟨by simpa using hv, hst, rfl, ?_⟩
+              intro id hid
+              subst hid
+              by_cases hin : id ∈ ids
+              · left; exact hin
+              · right; intro hPm
+                apply horph
+                exact List.mem_map.2 ⟨id, by simp [List.mem_filter, hPm, hin], rfl⟩
+    -- conversely, surviving names keep their non-tmp entries
+    have hkeepEntry : ∀ n r, n ∉ stale.map Name.snp → delName true t n = false →
+        (∀ id, n = .part id → id ∈ ids) → (∀ i m, n :: r ≠ [.part i, .tmp m]) →
+        Map.get fin (n :: r) = Map.get t (n :: r) := by
+      intro n r hst hd hpart hnt
+      rw [hfinRoot]
+      simp only [hst, if_false]
+      unfold afterLoad
+      rw [get_foldl_cleanupTmp_of_not_tmp _ _ _ hnt]
+      have hm : ((sortAsc S.parts).filter (fun id => !ids.contains id)).map (fun id => [Name.part id]) =
+          (((sortAsc S.parts).filter (fun id => !ids.contains id)).map Name.part).map (fun x => [x]) := by
+        simp [List.map_map, Function.comp_def]
+      rw [hm, get_rmNames]
+      have horph : n ∉ ((sortAsc S.parts).filter (fun id => !ids.contains id)).map Name.part := by
+        intro hmem
+        obtain ⟨id, hid, rfl⟩ := List.mem_map.1 hmem
+        have := hpart id rfl
+        simp [List.mem_filter, this] at hid
+      simp only [horph, if_false]
+      rw [hget1, hd]; simp
+    have hservedMem : ∀ id, id ∈ served t ids ↔ id ∈ sortAsc S.parts ∧ id ∈ ids := by
+      intro id; rw [← hkeep]; simp [List.mem_filter]
+    refine ⟨_, rfl, ?_, ?_, ?_, ?_⟩
+    · show List.map _ _ = _
+      rw [hkeep]
+    · show (if _ then _ else _) = _
+      rw [hkeep]
+    · -- every served part is complete
+      intro p hp
+      simp only [hkeep, List.mem_map] at hp
+      obtain ⟨id, hid, rfl⟩ := hp
+      obtain ⟨hidP, hidI⟩ := (hservedMem id).1 hid
+      obtain ⟨hdir, hv⟩ := (hmemP id).1 hidP
+      have hnst : Name.part id ∉ stale.map Name.snp := by simp
+      show isDir fin [Name.part id] = true ∧ _
+      constructor
+      · rw [isDir_congr (hkeepEntry (.part id) [] hnst (hpartKeep id hv) (by intro i hi; cases hi; exact hidI)
+          (by intro i m; simp))]
+        exact hdir
+      · intro f
+        show readFile fin (pfile id f) = _
+        rw [pfile, readFile_congr (hkeepEntry (.part id) [.pf f] hnst (hpartKeep id hv)
+          (by intro i hi; cases hi; exact hidI) (by intro i m; simp))]
+        exact h.complete id hidI hdir hv f
+    · show NoLeftovers (some e0) ⟨_, _, fin⟩
+      refine ⟨?_, ?_, ?_⟩
+      · intro q hq
+        obtain ⟨v, hv⟩ := (exists_iff _ _).1 hq
+        cases q with
+        | nil => simp
+        | cons n r => exact h.depth _ ((exists_iff t _).2 ⟨v, (hsub n r v hv).1⟩)
+      · intro n hn
+        obtain ⟨v, hv⟩ := (exists_iff _ _).1 hn
+        obtain ⟨hvt, hst, hd, hpart⟩ := hsub n [] v hv
+        rcases hrootClass n ((exists_iff t _).2 ⟨v, hvt⟩) hd with ⟨id, rfl, hid⟩ | ⟨e, rfl, he⟩
+        · right
+          rcases hpart id rfl with hin | hnin
+          · exact ⟨(id, bat id), by simp only [hkeep, List.mem_map]; exact ⟨id, (hservedMem id).2 ⟨hid, hin⟩, rfl⟩, rfl⟩
+          · exact absurd hid hnin
+        · left
+          refine ⟨e, ?_, rfl⟩
+          have hle := hsnapLe e he
+          have : ¬ e < e0 := by
+            intro hlt; apply hst
+            exact List.mem_map.2 ⟨e, by rw [hstale]; simp [List.mem_filter, he, hlt], rfl⟩
+          have : e = e0 := by omega
+          rw [this]
+      · intro id n hdir hex
+        obtain ⟨v, hv⟩ := (exists_iff _ _).1 hex
+        obtain ⟨hvt, hst, hd, hpart⟩ := hsub (.part id) [n] v hv
+        obtain hdirv := (isDir_iff _ _).1 hdir
+        obtain ⟨hdt, _, hdd, hpart'⟩ := hsub (.part id) [] _ hdirv
+        -- the part is served
+        have hidP : id ∈ sortAsc S.parts := by
+          rcases hrootClass (.part id) ((exists_iff t _).2 ⟨_, hdt⟩) hdd with ⟨i, hi, hiP⟩ | ⟨e, he, _⟩
+          · cases hi; exact hiP
+          · cases he
+        have hidI : id ∈ ids := by
+          rcases hpart' id rfl with hh | hh
+          · exact hh
+          · exact absurd hidP hh
+        obtain ⟨hdir0, hv0⟩ := (hmemP id).1 hidP
+        rcases (h.partShape id n ((exists_iff t _).2 ⟨v, hvt⟩)).2 with ⟨f, rfl⟩ | ⟨f, rfl⟩
+        · exact ⟨f, rfl⟩
+        · -- a `.tmp` sibling of a present file: removed by CleanupLeftoverTmp
+          exfalso
+          rw [hfinRoot] at hv
+          simp only [hst, if_false] at hv
+          have hnone : Map.get (afterLoad t1 ids (sortAsc S.parts)) [Name.part id, Name.tmp (Name.pf f)] = none := by
+            unfold afterLoad
+            apply get_foldl_cleanupTmp_victim
+            · simp [List.mem_filter, hidP, hidI]
+            · intro m; simp
+            · have hm : ((sortAsc S.parts).filter (fun id => !ids.contains id)).map (fun id => [Name.part id]) =
+                  (((sortAsc S.parts).filter (fun id => !ids.contains id)).map Name.part).map (fun x => [x]) := by
+                simp [List.map_map, Function.comp_def]
+              rw [exists_iff, hm, get_rmNames]
+              have horph : Name.part id ∉ ((sortAsc S.parts).filter (fun id => !ids.contains id)).map Name.part := by
+                intro hmem
+                obtain ⟨i, hi, hie⟩ := List.mem_map.1 hmem
+                cases hie
+                simp [List.mem_filter, hidI] at hi
+              simp only [horph, if_false]
+              rw [hget1, hpartKeep id hv0]
+              have := h.complete id hidI hdir0 hv0 f
+              rw [readFile_some_iff] at this
+              exact ⟨_, by simpa [pfile] using this⟩
+            · intro v' hv'
+              have hm : ((sortAsc S.parts).filter (fun id => !ids.contains id)).map (fun id => [Name.part id]) =
+                  (((sortAsc S.parts).filter (fun id => !ids.contains id)).map Name.part).map (fun x => [x]) := by
+                simp [List.map_map, Function.comp_def]
+              rw [hm, get_rmNames] at hv'
+              by_cases horph : Name.part id ∈ ((sortAsc S.parts).filter (fun id => !ids.contains id)).map Name.part
+              · rw [if_pos horph] at hv'; cases hv'
+              · rw [if_neg horph] at hv'
+                rw [hget1] at hv'
+                cases hd' : delName true t (Name.part id) with
+                | true => simp [hd'] at hv'
+                | false =>
+                  simp only [hd'] at hv'
+                  have hf := (h.partShape id (.tmp (.pf f)) ((exists_iff t _).2 ⟨v', by simpa using hv'⟩)).1
+                  obtain ⟨c, hc⟩ := (isFile_iff t _).1 hf
+                  have hv'' : Map.get t [Name.part id, Name.tmp (Name.pf f)] = some v' := by simpa using hv'
+                  rw [hc] at hv''
+                  exact ⟨c, by cases hv''; rfl⟩
+          rw [hnone] at hv; cases hv
+
+end Banyan.C04
+
+namespace Banyan.C04
+open Banyan.FS
+
+theorem recover_treeOK0 {t : Tree} (h : TreeOK0 t) :
+    ∃ r, recover t = .ok r ∧ r.parts = [] ∧ r.epoch = none ∧ NoLeftovers none r := by
+  unfold recover recoverWith
+  by_cases hne : (children t []).isEmpty = true
+  · rw [if_pos hne]
+    refine ⟨_, rfl, rfl, rfl, ?_, ?_, ?_⟩
+    · exact h.depth
+    · intro n hn
+      have := (mem_children_root t n).2 hn
+      rw [List.isEmpty_iff.1 hne] at this; simp at this
+    · intro id n hdir _
+      have := (mem_children_root t (.part id)).2 ((exists_iff t _).2 ⟨_, (isDir_iff t _).1 hdir⟩)
+      rw [List.isEmpty_iff.1 hne] at this; simp at this
+  · rw [if_neg hne]
+    simp only []
+    obtain ⟨S, hS⟩ : ∃ S, S = scan true t := ⟨_, rfl⟩
+    obtain ⟨t1, ht1⟩ : ∃ t1, t1 = rmMany t (S.del.map (fun n => [n])) := ⟨_, rfl⟩
+    rw [← hS, ← ht1]
+    have hget1 : ∀ n r, Map.get t1 (n :: r) = if delName true t n then none else Map.get t (n :: r) := by
+      intro n r; rw [ht1, hS, get_after_del]
+    have hSparts : S.parts = (children t []).filterMap (partOf t) := by rw [hS]; rfl
+    have hSsnaps : S.snaps = (children t []).filterMap (snapOf t) := by rw [hS]; rfl
+    have hnosnap : S.snaps = [] := by
+      cases hs : S.snaps with
+      | nil => rfl
+      | cons e l =>
+        exfalso
+        have : e ∈ (children t []).filterMap (snapOf t) := by rw [← hSsnaps, hs]; simp
+        rw [mem_scan_snaps] at this
+        rcases h.rootShape _ this.1 with ⟨id, hh, _⟩ | ⟨e', hh, _⟩ <;> cases hh
+    rw [if_pos (Or.inr (by rw [hnosnap]; rfl))]
+    have hfinal : ∀ n r, Map.get (rmMany t1 (S.snaps.map (fun e => [Name.snp e]) ++
+          (sortAsc S.parts).map (fun id => [Name.part id]))) (n :: r) =
+        if n ∈ S.snaps.map Name.snp ++ (sortAsc S.parts).map Name.part then none else Map.get t1 (n :: r) := by
+      intro n r
+      have : S.snaps.map (fun e => [Name.snp e]) ++ (sortAsc S.parts).map (fun id => [Name.part id]) =
+          (S.snaps.map Name.snp ++ (sortAsc S.parts).map Name.part).map (fun x => [x]) := by
+        simp [List.map_append, List.map_map, Function.comp_def]
+      rw [this, get_rmNames]
+    have hrootNone : ∀ n, exists_ (rmMany t1 (S.snaps.map (fun e => [Name.snp e]) ++
+          (sortAsc S.parts).map (fun id => [Name.part id]))) [n] = false := by
+      intro n
+      cases hex : exists_ (rmMany t1 (S.snaps.map (fun e => [Name.snp e]) ++
+          (sortAsc S.parts).map (fun id => [Name.part id]))) [n] with
+      | false => rfl
+      | true =>
+        exfalso
+        obtain ⟨v, hv⟩ := (exists_iff _ _).1 hex
+        rw [hfinal] at hv
+        by_cases hmem : n ∈ S.snaps.map Name.snp ++ (sortAsc S.parts).map Name.part
+        · rw [if_pos hmem] at hv; cases hv
+        · rw [if_neg hmem, hget1] at hv
+          cases hd : delName true t n with
+          | true => simp [hd] at hv
+          | false =>
+            simp only [hd] at hv
+            have hvt : Map.get t [n] = some v := by simpa using hv
+            have hex' : exists_ t [n] = true := (exists_iff t _).2 ⟨v, hvt⟩
+            rcases h.rootShape n hex' with ⟨id, rfl, hdir⟩ | ⟨e, rfl, hf⟩
+            · cases hvm : validMeta t id with
+              | true =>
+                apply hmem
+                apply List.mem_append_right
+                exact List.mem_map.2 ⟨id, (mem_sortAsc _ _).2 (by rw [hSparts, mem_scan_parts]; exact ⟨hdir, hvm⟩), rfl⟩
+              | false =>
+                have : delName true t (.part id) = true := by simp [delName, hex', toDelete, hdir, hvm]
+                rw [hd] at this; cases this
+            · have hnd : isDir t [Name.tmp (Name.snp e)] = false := by
+                obtain ⟨c, hc⟩ := (isFile_iff t _).1 hf
+                simp [isDir, hc]
+              have : delName true t (.tmp (.snp e)) = true := by simp [delName, hex', toDelete, hnd]
+              rw [hd] at this; cases this
+    refine ⟨_, rfl, rfl, rfl, ?_, ?_, ?_⟩
+    · intro q hq
+      obtain ⟨v, hv⟩ := (exists_iff _ _).1 hq
+      rcases get_rmMany_none_or t1 _ q with h1 | h1
+      · rw [h1] at hv; cases hv
+      · rw [h1, ht1] at hv
+        rcases get_rmMany_none_or t _ q with h2 | h2
+        · rw [h2] at hv; cases hv
+        · rw [h2] at hv; exact h.depth q ((exists_iff t _).2 ⟨v, hv⟩)
+    · intro n hn; rw [hrootNone n] at hn; cases hn
+    · intro id n hdir _
+      have := hrootNone (.part id)
+      rw [(exists_iff _ _).2 ⟨_, (isDir_iff _ _).1 hdir⟩] at this; cases this
 
 end Banyan.C04
